@@ -14,7 +14,7 @@ def absSeg (a b c d t : Rat) : Rat := rabs (a * t ^ 3) + rabs (b * t ^ 2) + rabs
 def absD1 (a b c t : Rat) : Rat := rabs (3 * a * t ^ 2) + rabs (2 * b * t) + rabs c
 def absD2 (a b t : Rat) : Rat := rabs (6 * a * t) + rabs (2 * b)
 def absStem (a b c d xj X : Rat) : Rat :=
-  rabs (a / 4 * (X - xj) ^ 4) + rabs (b / 3 * (X - xj) ^ 3) + rabs (c / 2 * (X - xj) ^ 2) + rabs (d * X)
+  rabs (a / 4 * (X - xj) ^ 4) + rabs (b / 3 * (X - xj) ^ 3) + rabs (c / 2 * (X - xj) ^ 2) + rabs (d * (X - xj))
 
 /-! The coefficients themselves are differences of nearly equal quantities (`s = Δy/h`,
     `a = (dy+dy'−2s)/h²`), so their rounding error is relative to the sums of absolute values below,
